@@ -182,7 +182,77 @@ def dp(P, C, variant=None):
             want = "ForStmt(unsigned int v0 = 1, (v0 < ndim), (v0++), IfStmt((order[v0] != v1), CompoundStmt((v1 = 0), BreakStmt)))"
             okc = txt == want and order[1] == ocv
             det = "constant order = order[0] unless some order[j] differs, then 0: %s" % txt[:150]
+        if not okc:
+            # the same computation in a helper or a local lambda that returns early: `first = A[0]; for (j = 1; j < N; j++) if (A[j] != first)
+            # return 0; return first;` called with (order, ndim) — or, for a lambda / member helper, reading this->order and this->ndim itself
+            helper = _common_order_helper(P, f, ocv)
+            if helper:
+                okc, det = True, "constant order from %s: order[0] when every order[j], 1 <= j < ndim, equals it, else 0" % helper
         C.ob("DP-4", name, "constant-order", okc, f.where(), det)
+
+
+def _common_order_helper(P, f, ocv):
+    init = None
+    for i in f.walk():
+        if f.k(i) == "DeclStmt":
+            for d in f.nodes[i]["decls"]:
+                if d.get("id") == ocv and d.get("init", -1) >= 0:
+                    init = f.strip(d["init"])
+    if init is None:
+        return None
+    n = f.nodes[init]
+    cal = n.get("callee")
+    if not cal:
+        return None
+    g = None
+    for cand in P.functions.values():
+        if cand.usr == cal.get("usr") and cand.body is not None and cand.body >= 0:
+            g = cand
+    if g is None:
+        for fm in P.variants.values():
+            if cal.get("usr") in fm:
+                g = fm[cal["usr"]]
+    if g is None:
+        return None
+    args = [f.render(a).replace("this->", "").replace(" ", "") for a in (f.args(init) if n["k"] != "CXXOperatorCallExpr" else n["ch"][2:])]
+    # names of the array and the count inside the helper
+    if len(g.params) == 2:
+        if args != ["order", "ndim"]:
+            return None
+        A, N = g.params[0]["name"], g.params[1]["name"]
+    elif len(g.params) == 0:
+        A, N = "order", "ndim"
+    else:
+        return None
+    kids = [x for x in g.ch(g.body)]
+    R = lambda x: g.render(x).replace("this->", "").replace(" ", "")       # noqa: E731
+    if len(kids) == 3 and g.k(kids[0]) == "DeclStmt" and g.k(kids[1]) == "ForStmt" and g.k(kids[2]) == "ReturnStmt":
+        d0 = g.nodes[kids[0]]["decls"][0]
+        if d0.get("init", -1) < 0 or R(d0["init"]) != "%s[0]" % A:
+            return None
+        first = d0["name"]
+    elif len(kids) == 2 and g.k(kids[0]) == "ForStmt" and g.k(kids[1]) == "ReturnStmt":
+        first = "%s[0]" % A            # the local naming A[0] was a const and has been replaced by what it names (N6)
+        kids = [None] + kids
+    else:
+        return None
+    L = g.nodes[kids[1]]
+    iv = g.nodes[L["init"]]["decls"][0] if L.get("init", -1) >= 0 and g.k(L["init"]) == "DeclStmt" else None
+    if iv is None or g.nodes[g.strip(iv["init"])].get("cv", g.nodes[g.strip(iv["init"])].get("v")) != 1:
+        return None
+    j = iv["name"]
+    if R(L["cond"]) != "(%s<%s)" % (j, N) or R(L["inc"]) != "(%s++)" % j:
+        return None
+    body = L["body"]
+    st = g.ch(body)[0] if g.k(body) == "CompoundStmt" and len(g.ch(body)) == 1 else body
+    if g.k(st) != "IfStmt" or g.nodes[st].get("else", -1) >= 0 or R(g.nodes[st]["cond"]) not in ("(%s[%s]!=%s)" % (A, j, first), "(%s!=%s[%s])" % (first, A, j)):
+        return None
+    rets = [x for x in g.walk(g.nodes[st]["then"]) if g.k(x) == "ReturnStmt"]
+    if len(rets) != 1 or g.nodes[g.strip(g.ch(rets[0])[0])].get("cv", g.nodes[g.strip(g.ch(rets[0])[0])].get("v")) != 0:
+        return None
+    if R(g.ch(kids[2])[0]) not in (first, "(%s)" % first):
+        return None
+    return "%s()" % (g.name if g.kind != "lambda" else "a local lambda")
 
 
 def dp7(P, C):
